@@ -160,12 +160,14 @@ func diff(v0, v1 any, one bool, ignores ...Path) (diffs []Path) {
 			break
 		}
 		for i, m1 := range t0 {
+			if len(t1) <= i {
+				if !ignoreIndex(i, ignores) {
+					diffs = append(diffs, Path{i})
+				}
+				return
+			}
 			if ignoreIndex(i, ignores) {
 				continue
-			}
-			if len(t1) <= i {
-				diffs = append(diffs, Path{i})
-				return
 			}
 			var childIgnores []Path
 			for _, ign := range ignores {
